@@ -3,7 +3,7 @@
    structure, and whose length is the one implied by the header: CacheBytesProofs). *)
 From Coq Require Import Sorted.
 From PG Require Import Base Mapping Spec CacheWriter CacheReader CacheStructDefs CacheBytesProofs
-  WriterInv CacheProofs CacheLayout.
+  Domain WriterInv CacheProofs CacheLayout Layout LayoutProofs.
 
 Theorem C09_struct_wf : forall rs, dom32 rs = true -> sizes_ok rs = true -> struct_wf (write_struct rs) = true.
 Proof. exact cache_struct_wf. Qed.
@@ -18,8 +18,8 @@ Proof. exact layout_classes_sorted. Qed.
 (* member and by-params ranges tile their sections exactly, in class order *)
 Theorem C09_ranges_tile : forall rs, dom32 rs = true -> sizes_ok rs = true ->
   let s := write_struct rs in
-  tiles (map (fun c => (c_moff c, c_mlen c)) (cs_classes s)) 0 (lenN (cs_members s)) /\
-  tiles (map (fun c => (c_poff c, c_plen c)) (cs_classes s)) 0 (lenN (cs_byparams s)).
+  CacheLayout.tiles (map (fun c => (c_moff c, c_mlen c)) (cs_classes s)) 0 (lenN (cs_members s)) /\
+  CacheLayout.tiles (map (fun c => (c_poff c, c_plen c)) (cs_classes s)) 0 (lenN (cs_byparams s)).
 Proof. exact layout_tiling. Qed.
 
 (* every referenced offset is a readable string or, where absence is allowed, the sentinel *)
@@ -35,3 +35,16 @@ Theorem C09_length : forall rs, dom32 rs = true -> sizes_ok rs = true ->
   let s := write_struct rs in
   lenN (ser s) = implied_length (lenN (cs_classes s)) (lenN (cs_members s)) (lenN (cs_byparams s)) (lenN (cs_strings s)).
 Proof. intros rs Hd Hs s. apply ser_length. apply cache_struct_wf; assumption. Qed.
+
+(* the independent decoder of the documented layout (Layout.v) accepts every written file *)
+Theorem C09_decoder_accepts : forall rs, dom32 rs = true -> sizes_ok rs = true ->
+  layout_ok (ser (write_struct rs)) = true.
+Proof. exact C09_layout_ok. Qed.
+
+(* the library's own integrity self-test (model of ProguardCache::test) accepts it *)
+Theorem C09_self_test_accepts : forall rs, dom32 rs = true -> sizes_ok rs = true ->
+  exists c, parse (write rs) = POk c /\ self_test c = true.
+Proof. exact C09_selftest_parsed. Qed.
+
+Check C09_decoder_accepts : forall rs, dom32 rs = true -> sizes_ok rs = true ->
+  layout_ok (ser (write_struct rs)) = true.
